@@ -86,23 +86,30 @@ def h_counter(counter: bytes, storage: str) -> None:
 OID_SELECT = [3, 254, 255, 256, 0xffff, 0x10000, 2 ** 32 - 1, 2 ** 32, 2 ** 48 + 5, 2 ** 56 - 1, 2 ** 63 + 1]
 
 
-def h_stored_oid(o: bytes, sel: int, storage: str, via: str, reopen: bool, oshape: str) -> None:
+def h_stored_oid(o: bytes, sel: int, sel2: int, storage: str, via: str, reopen: bool, oshape: str) -> None:
     """A record stored / restored with an arbitrary id raises the counter: no later new_oid returns it
     (or any id already present), also after close and reopen.
     oshape 'free': the id is 8 free bytes; 'select': a solver-chosen element of OID_SELECT (used where
     the id has to pass through code that hashes or re-parses it, which would enumerate values)."""
+    extra = None
     if oshape == 'select':
         assume(len(o) == 0)
         o = OID_SELECT[choose(sel, len(OID_SELECT))].to_bytes(8, 'big')
+        # a further object that exists beforehand, also at a boundary id (pairs such as 0xffff / 0x10000 lie in
+        # different buckets of the two-level index)
+        k2 = choose(sel2, len(OID_SELECT) + 1)
+        if k2 < len(OID_SELECT):
+            extra = OID_SELECT[k2].to_bytes(8, 'big')
+            assume(extra != o)
     else:
-        assume(sel == 0)
+        assume(sel == 0 and sel2 == 0)
     assume(len(o) == 8)
     assume(b'\0' * 8 < o < b'\xff\xff\xff\xff\xff\xff\xff\xf0')
     with untraced():
         env = T.Env(pure=True)             # pure-Python files: symbolic oid bytes can be written
         s = _storage(storage, env)
         h = T.Hist(s)
-        h.commit([(T.oid(1), b'a'), (T.oid(2), b'b')])
+        h.commit([(T.oid(1), b'a'), (T.oid(2), b'b')] + ([(extra, b'x')] if extra is not None else []))
         first = s.new_oid()                # allocation before the foreign record arrives
     t = T.meta(b'copy')
     tid = None
@@ -121,7 +128,7 @@ def h_stored_oid(o: bytes, sel: int, storage: str, via: str, reopen: bool, oshap
     if reopen:
         s.close()
         s = _storage('file', env)
-    present = [T.oid(1), T.oid(2), o]
+    present = [T.oid(1), T.oid(2), o] + ([extra] if extra is not None else [])
     issued = [] if reopen else [first]
     for i in range(3):
         n = s.new_oid()
@@ -149,7 +156,7 @@ class _OutOfDraws(Exception):
     pass
 
 
-def h_demo(d1: int, d2: int, d3: int, nalloc: int, commit_first: bool) -> None:
+def h_demo(d1: int, d2: int, d3: int, nalloc: int, commit_at: int) -> None:
     """DemoStorage.new_oid with symbolic random draws never returns an id present in base, in changes,
     or issued before."""
     with untraced():
@@ -176,12 +183,14 @@ def h_demo(d1: int, d2: int, d3: int, nalloc: int, commit_first: bool) -> None:
                 check(n not in present, 'demo storage issued an id that exists in a layer', n)
                 check(n not in issued, 'demo storage issued the same id twice', n)
                 issued.append(n)
-                if i == 0 and commit_first:
-                    # the first id gets used by a committed store: it is then "present", no longer "issued"
+                if i == commit_at:
+                    # this id gets used by a committed store: it is then "present", no longer "issued"; the ids
+                    # issued before it to other clients stay issued
                     with untraced():
                         n0 = realize(n)
-                        h.commit([(n0, b'uses-first-id')])
-                        present.append(n0)
+                    # traced: the storage's bookkeeping sets may hold other (symbolic) issued ids
+                    h.commit([(n0, b'uses-this-id')])
+                    present.append(n0)
         except _OutOfDraws:
             assume(False)          # more than 3 redraws needed: outside the bound
     finally:
@@ -282,8 +291,8 @@ HARNESSES = [
             symbolic='3 random draws (ints in a +-6 window around all ids present/issued)',
             bounds='<= 3 allocations, <= 3 redraws; base {70,71}, changes {75}, first draw 74', oracle='set difference',
             code=['DemoStorage.new_oid', 'DemoStorage.tpc_finish (_issued_oids bookkeeping)'], pure_python=True,
-            quick=dict(timeout=150, shards=shards(nalloc=[2], commit_first=[True, False])),
-            thorough=dict(timeout=900, shards=shards(nalloc=[1, 2, 3], commit_first=[True, False]))),
+            quick=dict(timeout=150, shards=shards(nalloc=[2], commit_at=[0, -1]) + shards(nalloc=[3], commit_at=[1])),
+            thorough=dict(timeout=900, shards=shards(nalloc=[1, 2, 3], commit_at=[-1, 0, 1]))),
     Harness('concurrent', h_concurrent,
             decides='two allocators interleaved at any lock operation or source line of new_oid() get different ids',
             symbolic='injection point `at` over lock operations and source lines of the new_oid in use',
